@@ -1,8 +1,11 @@
+import HqModel.Props.C09Core
 import HqModel.Props.C09Rpc
 import HqModel.Props.SysW
 import HqModel.Props.WorkerSide
 import HqModel.Lemmas.JobSteps
 import HqModel.Props.C13
+import HqModel.Lemmas.CoreMnReject
+import HqModel.Lemmas.CoreMsgWitness
 /-!
 # C09 — no reachable panic
 
@@ -13,6 +16,10 @@ models M1 (core), M4 (job layer) and M2 (worker); the correspondence check compa
 in a well-formed state. The composed statement (`c09_no_panic` over all cluster runs) is not a theorem; it is
 explored by the simulation on the real code, which found and led to the repair of twelve panics
 (KNOWN_FINDINGS.jsonl); one remains as a recorded finding (F27).
+
+Core (M1), finding F32 — `task_reject` ended in `unreachable!()` for a RunningMultiNode task (reachable: the root of a
+freshly placed multi-node task refuses it) — is FIXED; the last section proves that the arm that replaced the panic
+cannot panic itself (`c09_mn_reject_*`), the composed regression run is in `Props/SysW.lean` (`opsMnReject`).
 -/
 namespace HqModel.C09
 open HqModel.Job
@@ -116,5 +123,139 @@ theorem c09_cancel_no_panic (s : State) (hs : StateWF s) (j : Nat) : ∃ r, s.ca
       exact ⟨_, rfl⟩
 
 example : ∃ r, (({} : State).cancelJob 3) = .ok r := c09_cancel_no_panic {} init_wf 3
+
+/-! ## F32 (fixed): `task_reject` of a RunningMultiNode task
+
+Model M1, function `Core.State.taskReject` = `task_reject` of `reactor.rs` with the repair: after `block_request`,
+`RunningMultiNode(ws)`: if the sender is not `ws[0]` or its multi-node assignment `is_started` → `return false`;
+otherwise `reset_mn_task_workers(ws)` and the common tail (`Waiting{0}`, `add_ready_task`, `process_retracted`,
+`return true`; no `increment_instance_id`, no callback).
+
+The panic sites of the new arm are `ws[0]` on an empty list (`task_reject.ws0`), and inside `reset_mn_task_workers`
+`get_worker`, `mn_assignment().unwrap()` (`reset_mn_task_workers.unwrap`) and the `assert_eq!` on the task id
+(`reset_mn_task_workers.assert`). They are excluded by
+
+* `Core.InvF` — the global invariant proved for every state of every run whose operations satisfy `OpOk2`
+  (`Core.run_invF`): every worker of the list is in the map with a multi-node assignment for THIS task, and
+* `Core.MnShape` — every RunningMultiNode list is non-empty and duplicate-free; NOT part of `InvF` (which speaks about
+  membership only) but an invariant of every run from the empty core without any side condition
+  (`c09_mn_shape_reachable`): `set_mn_task` asserts `is_free()`, `send_messages` unwraps the root, and a list only loses
+  non-root workers afterwards. It is needed: `reset_mn_task_workers` visits the list in order and would find a worker
+  that is named twice already reset at the second visit.
+
+The COMMON TAIL of `task_reject` is shared with the Assigned / Prefilled / Retracting arms; its panic sites
+(`task_queues.index` in `add_ready_task`; `get_task` / `unreachable!()` / `remove_prefill_task` in `process_retracted`)
+are not specific to this arm and are not excluded by any invariant proved in this project (no theorem says that the
+entries of a prefill queue are Prefilled tasks). `c09_mn_reject_arm_no_panic` therefore says that the result IS the
+tail's result on the reset state, and `c09_mn_reject_no_panic` adds two conditions on the tail's inputs — the request
+has a queue, no prefill of lower priority is disposed (then `process_retracted` has nothing to do) — under which the
+whole function returns `.ok`. -/
+
+/-- **The worker list of a RunningMultiNode task is non-empty and duplicate-free in every reachable state** — all
+runs from the empty core, no side condition. -/
+theorem c09_mn_shape_reachable (ops : List Core.Op) (s : Core.State) (out : Core.Out)
+    (hrun : Core.run {} ops = .ok (s, out)) (t : Core.Task) (ht : t ∈ s.tasks) (ws : List Nat)
+    (hs : t.state = .runningMN ws) : ws ≠ [] ∧ ws.Nodup :=
+  Core.run_mnShape hrun t ht ws hs
+
+/-- **The multi-node arm of `task_reject` has no reachable panic site**: for every core state with `InvF` and
+`MnShape`, every RunningMultiNode task and EVERY registered worker `w`: either the message is ignored (`false`, empty
+output; tasks and queues unchanged, only the record of `w` — its `blocked` list — may differ), or `w` is the root
+`ws[0]`, every worker of `ws` is back to an empty single-node assignment with all resources free (nothing else changed:
+same tasks, same queues, the other workers untouched), and the result of `task_reject` is the result of its common tail
+`Core.rejectTail` (`Waiting{0}; add_ready_task; process_retracted; true`) on that state. -/
+theorem c09_mn_reject_arm_no_panic (s : Core.State) (hi : Core.InvF s) (hsh : Core.MnShape s)
+    (w : Nat) (id : Core.TaskId) (rv : Option Nat) (task : Core.Task) (ws : List Nat)
+    (ht : s.task? id = some task) (hs : task.state = .runningMN ws) (hw : (s.worker? w).isSome = true) :
+    (∃ s0, s.taskReject w id rv = .ok (s0, {}, false) ∧ s0.tasks = s.tasks ∧ s0.queues = s.queues ∧
+        ∀ y, y ≠ w → s0.worker? y = s.worker? y) ∨
+    (∃ s1 others, ws = w :: others ∧ s1.tasks = s.tasks ∧ s1.queues = s.queues ∧
+        (∀ y, y ∉ ws → y ≠ w → s1.worker? y = s.worker? y) ∧
+        (∀ x ∈ ws, ∃ wk, s1.worker? x = some wk ∧ wk.assign = .sn [] wk.total []) ∧
+        s.taskReject w id rv = Core.rejectTail s1 task) :=
+  Core.taskReject_mn_arm hi hsh ht hs hw
+
+/-- **`task_reject` of a RunningMultiNode task does not panic** (F32 fixed): core state with `InvF` and `MnShape`, a
+RunningMultiNode task, ANY registered worker id `w`, and the two conditions on the inputs of the common tail (`hq`: the
+task's request has a queue; `hpf`: no prefill queue has a lower priority than the task, so `add_ready_task` disposes
+nothing). Then `task_reject` returns `.ok`, makes no callback and sends nothing; if it returns `true` the task is
+`Waiting 0` afterwards — with the SAME instance id — and every worker of its former list is back to an empty
+single-node assignment with all resources free; if it returns `false` no task record changed. -/
+theorem c09_mn_reject_no_panic (s : Core.State) (hi : Core.InvF s) (hsh : Core.MnShape s)
+    (w : Nat) (id : Core.TaskId) (rv : Option Nat) (task : Core.Task) (ws : List Nat)
+    (ht : s.task? id = some task) (hs : task.state = .runningMN ws) (hw : (s.worker? w).isSome = true)
+    (hq : task.rq < s.queues.length)
+    (hpf : ∀ q ∈ s.queues, ∀ pp ts, q.prefill = some (pp, ts) → ¬ pp < task.prio) :
+    ∃ s' o b, s.taskReject w id rv = .ok (s', o, b) ∧ o.msgs = [] ∧ o.cbs = [] ∧
+      (b = true → (∃ task', s'.task? id = some task' ∧ task'.state = .waiting 0 ∧ task'.inst = task.inst) ∧
+        ∀ x ∈ ws, ∃ wk, s'.worker? x = some wk ∧ wk.assign = .sn [] wk.total []) ∧
+      (b = false → s'.tasks = s.tasks) := by
+  rcases Core.taskReject_mn_arm (rv := rv) hi hsh ht hs hw with ⟨s0, h, e1, _, _⟩ | ⟨s1, others, _, e1, e2, _, e4, h⟩
+  · exact ⟨s0, {}, false, h, rfl, rfl, (fun e => by cases e), fun _ => e1⟩
+  · have ht1 : s1.task? id = some task := by unfold Core.State.task?; rw [e1]; exact ht
+    obtain ⟨s', hr, htask, hwk⟩ := Core.rejectTail_ok (told := task) ht1 (Core.findTask_some_id ht)
+      (by rw [e2]; exact hq) (by rw [e2]; exact hpf)
+    refine ⟨s', {}, true, h.trans hr, rfl, rfl, fun _ => ⟨⟨_, htask, rfl, rfl⟩, fun x hx => ?_⟩, (fun e => by cases e)⟩
+    obtain ⟨wk, h1, h2⟩ := e4 x hx
+    exact ⟨wk, by unfold Core.State.worker?; rw [hwk]; exact h1, h2⟩
+
+/-- … for every REACHABLE state: every run from the empty core whose operations satisfy `OpOk2`. -/
+theorem c09_mn_reject_no_panic_reachable (ops : List Core.Op) (s : Core.State) (out : Core.Out)
+    (hok : Core.RunOk Core.OpOk2 {} ops) (hrun : Core.run {} ops = .ok (s, out))
+    (w : Nat) (id : Core.TaskId) (rv : Option Nat) (task : Core.Task) (ws : List Nat)
+    (ht : s.task? id = some task) (hs : task.state = .runningMN ws) (hw : (s.worker? w).isSome = true)
+    (hq : task.rq < s.queues.length)
+    (hpf : ∀ q ∈ s.queues, ∀ pp ts, q.prefill = some (pp, ts) → ¬ pp < task.prio) :
+    ∃ s' o b, s.taskReject w id rv = .ok (s', o, b) ∧ o.msgs = [] ∧ o.cbs = [] ∧
+      (b = true → (∃ task', s'.task? id = some task' ∧ task'.state = .waiting 0 ∧ task'.inst = task.inst) ∧
+        ∀ x ∈ ws, ∃ wk, s'.worker? x = some wk ∧ wk.assign = .sn [] wk.total []) ∧
+      (b = false → s'.tasks = s.tasks) :=
+  c09_mn_reject_no_panic s (Core.run_invF hok hrun) (Core.run_mnShape hrun) w id rv task ws ht hs hw hq hpf
+
+/-- the decidable hypotheses of `c09_mn_reject_no_panic`, for task (1,0), the list `[1]` and the workers 1 and 2 -/
+private def mnChk (r : Except Core.Stop (Core.State × Core.Out)) : Bool :=
+  match r with
+  | .ok (s, _) =>
+    (match s.task? (1, 0) with
+     | some task => decide (task.state = .runningMN [1]) && decide (task.rq < s.queues.length)
+     | none => false) &&
+    (s.worker? 1).isSome && (s.worker? 2).isSome && s.queues.all (fun q => q.prefill.isNone) && decide (Core.MnShape s)
+  | .error _ => false
+
+/-- **the hypotheses are satisfiable** on a concrete state with two workers and a placed, not started multi-node task:
+the state after the first five operations of `Core.mnRejectOps` (two workers, a one-node request, task (1,0) placed on
+`[1]`): `InvF` (the run satisfies `OpOk2`), `MnShape`, the task is RunningMultiNode, both workers are registered, the
+request has a queue and no queue has a prefill. The theorem applies to worker 1 (the root: requeue) and to worker 2
+(not the root: ignored) — and the two results are what it says (`decide`). -/
+example : ∃ s out task, Core.run {} (Core.mnRejectOps.take 5) = .ok (s, out) ∧ Core.InvF s ∧ Core.MnShape s ∧
+    s.task? (1, 0) = some task ∧ task.state = .runningMN [1] ∧ (s.worker? 1).isSome = true ∧
+    (s.worker? 2).isSome = true ∧ task.rq < s.queues.length ∧
+    (∀ q ∈ s.queues, ∀ pp ts, q.prefill = some (pp, ts) → ¬ pp < task.prio) := by
+  have hok : Core.RunOk Core.OpOk2 {} (Core.mnRejectOps.take 5) := by decide
+  have hc : mnChk (Core.run {} (Core.mnRejectOps.take 5)) = true := by decide
+  cases hr : Core.run {} (Core.mnRejectOps.take 5) with
+  | error e => rw [hr] at hc; cases hc
+  | ok r =>
+    obtain ⟨s, out⟩ := r
+    rw [hr] at hc
+    simp only [mnChk, Bool.and_eq_true, decide_eq_true_eq, List.all_eq_true, Option.isNone_iff_eq_none] at hc
+    obtain ⟨⟨⟨⟨h1, h2⟩, h3⟩, h4⟩, h5⟩ := hc
+    cases ht : s.task? (1, 0) with
+    | none => rw [ht] at h1; cases h1
+    | some task =>
+      rw [ht] at h1
+      simp only [Bool.and_eq_true, decide_eq_true_eq] at h1
+      exact ⟨s, out, task, rfl, Core.run_invF hok hr, h5, ht, h1.1, h2, h3, h1.2,
+        fun q hq pp ts e => by rw [h4 q hq] at e; cases e⟩
+
+private def rejRes (w : Nat) : Option (List (Core.TaskId × Core.TS × Nat)) :=
+  ((Core.run {} (Core.mnRejectOps.take 5)).toOption.bind fun r =>
+    (r.1.taskReject w (1, 0) (some 0)).toOption).map fun x => x.1.tasks.map fun t => (t.id, t.state, t.inst)
+private def rejFlag (w : Nat) : Option Bool :=
+  ((Core.run {} (Core.mnRejectOps.take 5)).toOption.bind fun r =>
+    (r.1.taskReject w (1, 0) (some 0)).toOption).map fun x => x.2.2
+
+example : rejRes 1 = some [((1, 0), .waiting 0, 0)] ∧ rejFlag 1 = some true := by decide
+example : rejRes 2 = some [((1, 0), .runningMN [1], 0)] ∧ rejFlag 2 = some false := by decide
 
 end HqModel.C09
